@@ -182,4 +182,132 @@ theorem add_ok_shape (h : Headers) (k v : Str) (hk : isToken k = true) (hv : isF
   | some vs => exact ⟨_, rfl, rfl, by simp [dget_dset_same]⟩
   | none => exact ⟨_, rfl, rfl, by simp [setItem, normalize_idem, dget_dset_same]⟩
 
+/-! ### malformed lines are rejected -/
+
+theorem splitColon_none (w : Str) (h : cColon ∉ w) : splitColon w = none := by
+  induction w with
+  | nil => rfl
+  | cons c cs ih =>
+    simp at h
+    have hc : ¬ c = cColon := fun e => h.1 e.symm
+    simp only [splitColon, hc, if_false, ih h.2, Option.map_none]
+
+/-- a line that is not a field line (`name ":" OWS value OWS`) nor a continuation line, stated from the outside:
+    (1) starts with a non-blank and has no colon; (2) the text before the first colon is not a token (and does not start
+    with a blank); (3) the name is a token but the value, with its surrounding blanks removed, is not a field-value. -/
+inductive Malformed : Str → Prop where
+  | noColon (w : Str) (hne : w ≠ []) (hhead : ∀ c ∈ w.head?, isWs c = false) (hcol : cColon ∉ w)
+      (hw : NoEolChar w) : Malformed w
+  | badName (k rest : Str) (hcol : cColon ∉ k) (hhead : ∀ c ∈ k.head?, isWs c = false) (hk : isToken k = false)
+      (hw : NoEolChar (k ++ cColon :: rest)) : Malformed (k ++ cColon :: rest)
+  | badValue (k a v b : Str) (hk : isToken k = true) (ha : AllWs a) (hb : AllWs b)
+      (h1 : ∀ c ∈ v.head?, isWs c = false) (h2 : ∀ c ∈ v.reverse.head?, isWs c = false)
+      (hv : isFieldValue v = false) (hw : NoEolChar v) : Malformed (k ++ cColon :: (a ++ v ++ b))
+
+theorem parseLine_malformed (h : Headers) (l e : Str) (hm : Malformed l) (he : IsEol e) :
+    parseLine h (l ++ e) = .error .httpInput := by
+  cases hm with
+  | noColon _ hne hhead hcol hw =>
+    unfold parseLine
+    simp only [stripEol_eol _ e hw he]
+    cases l with
+    | nil => exact absurd rfl hne
+    | cons c cs =>
+      have hc : isWs c = false := hhead c (by simp)
+      simp only [hc, Bool.false_eq_true, if_false, splitColon_none _ hcol]
+  | badName k rest hcol hhead hk hw =>
+    unfold parseLine
+    simp only [stripEol_eol _ e hw he]
+    cases k with
+    | nil =>
+      have : isWs cColon = false := by decide
+      simp only [List.nil_append, this, Bool.false_eq_true, if_false, splitColon, if_true]
+      unfold add
+      simp [hk]
+    | cons c cs =>
+      have hc : isWs c = false := hhead c (by simp)
+      have := splitColon_line (c :: cs) rest hcol
+      simp only [List.cons_append] at this
+      simp only [List.cons_append, hc, Bool.false_eq_true, if_false, this]
+      unfold add
+      simp [hk]
+  | badValue k a v b hk ha hb h1 h2 hv hw =>
+    obtain ⟨hkne, _, hkcol, hkws⟩ := token_props k hk
+    have hne : NoEolChar (k ++ cColon :: (a ++ v ++ b)) := by
+      apply noEol_append (token_noEol k hk)
+      intro c hc
+      rcases List.mem_cons.1 hc with rfl | hc
+      · decide
+      · exact noEol_append (noEol_append (allWs_noEol ha) hw) (allWs_noEol hb) c hc
+    unfold parseLine
+    simp only [stripEol_eol _ e hne he]
+    cases k with
+    | nil => exact absurd rfl hkne
+    | cons c cs =>
+      have hc : isWs c = false := hkws c (by simp)
+      have := splitColon_line (c :: cs) (a ++ v ++ b) hkcol
+      simp only [List.cons_append] at this
+      simp only [List.cons_append, hc, Bool.false_eq_true, if_false, this]
+      rw [stripWs_ows a v b ha hb h1 h2]
+      unfold add
+      simp [hk, hv]
+
+/-- a continuation line cannot come first, and its text must be a field-value -/
+theorem parseLine_bad_fold (h : Headers) (a body b e : Str) (ha : AllWs a) (hane : a ≠ []) (hb : AllWs b)
+    (h1 : ∀ c ∈ body.head?, isWs c = false) (h2 : ∀ c ∈ body.reverse.head?, isWs c = false)
+    (hw : NoEolChar body) (he : IsEol e) (hbad : h.lastKey = none ∨ (isFieldValue body = false ∧ h.lastKey ≠ none))
+    (hnonblank : a ++ body ++ b ≠ []) :
+    parseLine h ((a ++ body ++ b) ++ e) = .error .httpInput := by
+  have hne : NoEolChar (a ++ body ++ b) := noEol_append (noEol_append (allWs_noEol ha) hw) (allWs_noEol hb)
+  have hstrip := stripWs_ows a body b ha hb h1 h2
+  unfold parseLine
+  simp only [stripEol_eol _ e hne he]
+  cases a with
+  | nil => exact absurd rfl hane
+  | cons c cs =>
+    have hc : isWs c = true := ha c (by simp)
+    simp only [List.cons_append] at hstrip ⊢
+    rcases hbad with hl | ⟨hv, hl⟩
+    · simp only [hc, if_true, hl]
+    · cases hk : h.lastKey with
+      | none => exact absurd hk hl
+      | some k => simp only [hc, if_true, hstrip, hv, Bool.not_false, Bool.and_true, Bool.true_and, if_true]
+
+/-! ### the `_chars_are_bytes=False` mode (multipart/form-data part headers) -/
+
+theorem notForbidden_noEol (v : Str) (h : hasForbidden v = false) : NoEolChar v := by
+  unfold hasForbidden at h
+  rw [List.any_eq_false] at h
+  intro c hc
+  have := h c hc
+  simp only [Bool.or_eq_true, Bool.and_eq_true, decide_eq_true_eq, not_or, not_and] at this
+  unfold cLf cCr
+  omega
+
+/-- field line in the character mode: the value may be any text without control characters (any code point ≥ 0x80
+    included); the line is `add(name, value, _chars_are_bytes=False)` -/
+theorem parseLine_field_line_chars (h : Headers) (k v a b e : Str) (hk : isToken k = true)
+    (hv : hasForbidden v = false) (h1 : ∀ c ∈ v.head?, isWs c = false) (h2 : ∀ c ∈ v.reverse.head?, isWs c = false)
+    (ha : AllWs a) (hb : AllWs b) (he : IsEol e) :
+    parseLine h ((k ++ cColon :: (a ++ v ++ b)) ++ e) false = add h k v false := by
+  obtain ⟨hkne, _, hkcol, hkws⟩ := token_props k hk
+  have hne : NoEolChar (k ++ cColon :: (a ++ v ++ b)) := by
+    apply noEol_append (token_noEol k hk)
+    intro c hc
+    rcases List.mem_cons.1 hc with rfl | hc
+    · decide
+    · exact noEol_append (noEol_append (allWs_noEol ha) (notForbidden_noEol v hv)) (allWs_noEol hb) c hc
+  unfold parseLine
+  simp only [stripEol_eol _ e hne he]
+  cases k with
+  | nil => exact absurd rfl hkne
+  | cons c cs =>
+    have hc : isWs c = false := hkws c (by simp)
+    simp only [List.cons_append, hc, Bool.false_eq_true, if_false]
+    have := splitColon_line (c :: cs) (a ++ v ++ b) hkcol
+    simp only [List.cons_append] at this
+    rw [this]
+    simp only
+    rw [stripWs_ows a v b ha hb h1 h2]
+
 end TornadoModel.C06
